@@ -30,6 +30,21 @@ CHECKS = {
  "C13": ("structured-error field oracle against the generated case (labels, multisets, pointer identity)",
          "Scenarios with a parameter made hopeless by construction: the monitor inspects ErrArgumentUnsatisfied.Args/Inputs/Converters and the message against the case specification and the MUST fix-point.",
          "Hopelessness is by construction (types T4/T5 unused elsewhere); generator-delivered converters are not required in Converters.", "5/C13"),
+ "C08": ("planning-result oracle: declared inputs of the redefined function vs. filter model and supplied values; provenance/identity checks on calling it",
+         "G-redefine scenarios (single-input converters, no subtypes, one type per name, constructive chains of 1-5 converters with optional cycles, arbitrary type-subset filters built from the library's combinators): the monitor checks the redefined function's declared inputs against the filter and the supplied values, calls it with a fresh value per input and requires the original target to run exactly once with the results passed through unchanged.",
+         "Positional target results only (ids compared one by one); values for interface-typed named inputs are supplied type-only, the only form the matching rules accept.", "5/C08"),
+ "C09": ("execution counters during planning + twin-world differential over operation histories; concurrent rounds under the Go race detector",
+         "Histories interleaving Redefine with Call/Convert/redefined calls on shared function objects (run-once ones included) are compared with a twin world that performs the same history without the Redefines; no generated body may run between entry and return of Redefine; a leaked zero-producing stand-in would surface as provenance id 0 in the C01 monitor. One case in eight runs Redefine and Call concurrently under -race.",
+         "Twin comparison only on outcome-stable scenario classes; races judged on observed interleavings.", "5/C09"),
+ "C10": ("differential monitor: Convert vs. Call of a real identity function in a twin world, plus provenance checks of the returned value",
+         "Convert's return pair is checked on every case (nil-with-error, assignability, provenance under the C01 rule for a type-only parameter, C04 on the log) and compared with calling func(T) T in a twin world on the outcome-stable cases (underivable, or C05 scope without failures).",
+         "Outcome equality is demanded only where the outcome class is a singleton.", "5/C10"),
+ "C11": ("execution counters + porcupine linearizability check of recorded exec/use histories against a write-once-register model + Go race detector, with injected yields/sleeps at hook points",
+         "Sequential histories over varying targets check at-most-once execution and that every later use observes execution #0 (values or the identical error). Concurrent first-use rounds (GOMAXPROCS 1-16, perturbation at the memo check/call/store hooks and inside the body) record exec and use operations with real-time intervals; porcupine decides each history; the race detector watches the memo.",
+         "Porcupine timeout = inconclusive; race freedom only for interleavings that occurred.", "5/C11"),
+ "C12": ("Go race detector over a hostile sharing workload + per-call outcome/isolation oracles on the provenance log",
+         "One target, its default options, converter objects, one option slice with every option constructor, a shared redefined function and shared value sets are hammered by 4-16 goroutines doing Call/Convert/Redefine/redefined calls with per-call inputs; any race report is a violation; outcomes must equal the sequential reference; provenance of every execution's arguments must stay within one call (or shared constants).",
+         "BuildFunc functions excluded as the property states; the monitor's own state is mutex protected; reports are deduplicated by top-frame pair.", "5/C12"),
 }
 
 NOT_YET = {}
